@@ -547,6 +547,9 @@ class SymEval:
         if c is False:
             return self.exec_block(st.orelse, env)
         # undecidable: evaluate both arms, join
+        if getattr(self, 'mutable_lists', False):
+            raise Unsupported('undecided branch `%s` while lists are grown in place'
+                              % norm_text(st.test)[:60])
         e1, e2 = dict(env), dict(env)
         r1 = r2 = None
         try:
@@ -888,6 +891,14 @@ class SymEval:
                 return (Opaque('n'),) if self.stacked and isinstance(base, Rat) else ()
             if a in ('copy', 'reshape'):
                 return Bound(base, a)
+        if isinstance(base, str) and a in ('split', 'startswith', 'endswith', 'upper', 'lower',
+                                           'strip', 'partition', 'rpartition'):
+            return getattr(base, a)         # pure methods of a concrete string
+        if isinstance(base, list) and a in ('append', 'extend') and \
+                getattr(self, 'mutable_lists', False):
+            # in-place list growth: only in evaluations where every branch is decided (an
+            # undecided branch with this flag set is rejected in exec_if)
+            return getattr(base, a)
         if isinstance(base, PArr):
             if a == 'T':
                 raise Unsupported('transpose of parameter array')
@@ -1058,7 +1069,22 @@ class SymEval:
     e_GeneratorExp = e_ListComp
 
     def e_JoinedStr(self, node, env):
-        return Opaque('fstring')
+        # an f-string whose fields are all concrete strings / integers is that string
+        parts = []
+        for v in node.values:
+            if isinstance(v, ast.Constant) and isinstance(v.value, str):
+                parts.append(v.value)
+                continue
+            if isinstance(v, ast.FormattedValue) and v.format_spec is None and v.conversion == -1:
+                try:
+                    x = self.eval(v.value, env)
+                except Unsupported:
+                    return Opaque('fstring')
+                if isinstance(x, (str, int)) and not isinstance(x, bool):
+                    parts.append(str(x))
+                    continue
+            return Opaque('fstring')
+        return ''.join(parts)
 
     def e_Subscript(self, node, env):
         base = self.eval(node.value, env)
@@ -1094,7 +1120,8 @@ class SymEval:
             if sel < 0:
                 sel += dim
             if not 0 <= sel < dim:
-                raise Unsupported('index out of range')
+                raise RuntimeFailure('index %d is out of bounds for an axis of size %d'
+                                     % (sel if sel < dim else sel, dim))
             return [sel], False
         if isinstance(sel, slice):
             if any(isinstance(x, (Rat, Opaque)) for x in (sel.start, sel.stop, sel.step)):
@@ -1141,7 +1168,8 @@ class SymEval:
         else:
             keep_sample = False
         if len(idx) > len(arr.shape):
-            raise Unsupported('too many indices')
+            raise RuntimeFailure('too many indices for an array of %d dimensions'
+                                 % (len(arr.shape) + (1 if arr.sample else 0)))
         while len(idx) < len(arr.shape):
             idx.append(slice(None, None, None))
         sels = [self._axis_sel(s, d) for s, d in zip(idx, arr.shape)]
@@ -1150,8 +1178,75 @@ class SymEval:
             raise Unsupported('zipped advanced indexing')
         return sels, keep_sample
 
+    def _zipped(self, arr, idx):
+        """numpy 'zipped' advanced indexing: two or more ADJACENT integer lists of equal length
+        k select k elements pairwise; the other axes take slices.  Returns (out_shape,
+        [(out_index, src_index)], keep_sample) or None when idx is not of that kind."""
+        if not isinstance(idx, tuple):
+            return None
+        idx = list(idx)
+        if sum(1 for s in idx if isinstance(s, (list, tuple))) < 2:
+            return None
+        if any(x is Ellipsis for x in idx) or (len(idx) == 1 and isinstance(idx[0], Opaque)):
+            return None
+        if arr.sample:
+            first = idx.pop(0)
+            if not (isinstance(first, slice) and first == slice(None, None, None)):
+                raise Unsupported('zipped advanced indexing with an index on the sample axis')
+        while len(idx) < len(arr.shape):
+            idx.append(slice(None, None, None))
+        if len(idx) > len(arr.shape):
+            raise Unsupported('too many indices')
+        lists = [k for k, s_ in enumerate(idx) if isinstance(s_, (list, tuple))]
+        if lists != list(range(lists[0], lists[0] + len(lists))):
+            raise Unsupported('separated advanced indices')
+        if any(not isinstance(s_, (slice, list, tuple)) for s_ in idx):
+            raise Unsupported('integer mixed with zipped advanced indices')
+        for k in lists:
+            if not all(isinstance(x, int) and not isinstance(x, bool) for x in idx[k]):
+                raise Unsupported('symbolic advanced index')
+        if len({len(idx[k]) for k in lists}) != 1:
+            raise RuntimeFailure('shape mismatch: indexing arrays of lengths %s cannot be '
+                                 'broadcast together' % [len(idx[k]) for k in lists])
+        n = len(idx[lists[0]])
+        pos = {}
+        for k, s_ in enumerate(idx):
+            if k in lists:
+                for x in s_:
+                    if not -arr.shape[k] <= x < arr.shape[k]:
+                        raise RuntimeFailure('index %d is out of bounds for axis %d with size %d'
+                                             % (x, k, arr.shape[k]))
+                pos[k] = [x % arr.shape[k] for x in s_]
+            else:
+                pos[k] = self._axis_sel(s_, arr.shape[k])[0]
+        before = [k for k in range(len(idx)) if k < lists[0]]
+        after = [k for k in range(len(idx)) if k > lists[-1]]
+        shape = tuple(len(pos[k]) for k in before) + (n,) + tuple(len(pos[k]) for k in after)
+        pairs = []
+        for oidx in SArray(shape, {}).indices():
+            src = [None] * len(idx)
+            for c, k in enumerate(before):
+                src[k] = pos[k][oidx[c]]
+            z = oidx[len(before)]
+            for k in lists:
+                src[k] = pos[k][z]
+            for c, k in enumerate(after):
+                src[k] = pos[k][oidx[len(before) + 1 + c]]
+            pairs.append((oidx, tuple(src)))
+        return shape, pairs, arr.sample
+
     def index(self, base, idx, node=None):
         if isinstance(base, SArray):
+            z = self._zipped(base, idx)
+            if z is not None:
+                shape, pairs, keep = z
+                out = SArray(shape, {}, None, keep)
+                for oidx, src in pairs:
+                    try:
+                        out.entries[oidx] = base.get(src)
+                    except Unsupported:
+                        pass
+                return out
             sels, keep_sample = self._split_index(base, idx)
             kept = [len(p) for p, k in sels if k]
             if not kept:
@@ -1208,8 +1303,11 @@ class SymEval:
                 out.colnames = list(idx)
                 return out
             raise Unsupported('record index %r' % (idx,))
-        if isinstance(base, (list, tuple)):
+        if isinstance(base, (list, tuple, str)):
             if isinstance(idx, int):
+                if not -len(base) <= idx < len(base):
+                    raise RuntimeFailure('index %d out of range for a sequence of length %d'
+                                         % (idx, len(base)))
                 return base[idx]
             if isinstance(idx, slice):
                 return base[idx]
@@ -1238,6 +1336,26 @@ class SymEval:
                 if per_sample(v):
                     raise Unsupported('shape mismatch: a per-sample value is stored into an array '
                                       'allocated with leading length 1 (stacked form)')
+            z = self._zipped(base, idx)
+            if z is not None:
+                shape, pairs, _ = z
+                for oidx, dst in pairs:
+                    if isinstance(v, SArray):
+                        if v.shape == shape:
+                            val = v.get(oidx)
+                        elif v.shape == shape[len(shape) - len(v.shape):]:
+                            val = v.get(oidx[len(shape) - len(v.shape):])
+                        elif all(isinstance(d, int) for d in v.shape + shape):
+                            raise BroadcastError('could not broadcast input array from shape %s '
+                                                 'into shape %s' % (v.shape, shape))
+                        else:
+                            raise Unsupported('store shape %s into %s' % (v.shape, shape))
+                    else:
+                        val = self.rat(v)
+                    base.entries[dst] = val
+                    if isinstance(v, SArray) and v.sample:
+                        base.sample = True
+                return
             sels, _ = self._split_index(base, idx)
             kept = [len(p) for p, k in sels if k]
             tgt = SArray(tuple(kept), {})
@@ -1471,8 +1589,9 @@ class SymEval:
             return v
         if q == 'numpy.square':
             return self.emap(lambda x: A.mul(x, x), args[0])
-        if q in ('numpy.zeros', 'numpy.empty'):
-            return self.alloc(args[0], A.const(0) if q.endswith('zeros') else None)
+        if q in ('numpy.zeros', 'numpy.empty', 'numpy.ones'):
+            return self.alloc(args[0], A.const(0) if q.endswith('zeros') else
+                              (A.const(1) if q.endswith('ones') else None))
         if q in ('numpy.zeros_like', 'numpy.empty_like'):
             v = args[0]
             if isinstance(v, SArray):
@@ -1533,6 +1652,8 @@ class SymEval:
                 return self.transpose(args[0])
             return self.permute(args[0], axes)
         if q == 'numpy.einsum' and isinstance(args[0], str) and len(args) == 3:
+            if any(isinstance(x, Opaque) for x in args[1:]):
+                return Opaque('einsum', *args)      # an operand the model does not look into
             return self.einsum(args[0], args[1], args[2])
         if q == 'numpy.ix_':
             return Opaque('ix', *args)
@@ -1626,6 +1747,22 @@ class SymEval:
             if all(isinstance(a, int) for a in vals):
                 return range(*vals)
             return Opaque('range-sym', *vals)
+        if q == 'builtins.zip' and args and not kwargs:
+            seqs = []
+            for a in args:
+                if isinstance(a, SArray) and len(a.shape) == 1 and not a.sample:
+                    seqs.append([a.get((i,)) for i in range(a.shape[0])])
+                elif isinstance(a, (list, tuple)):
+                    seqs.append(list(a))
+                else:
+                    seqs = None
+                    break
+            if seqs is not None:
+                if len({len(x) for x in seqs}) != 1:
+                    # zip truncates silently: not modelled (a length disagreement is usually
+                    # what the analysed code guards against)
+                    raise Unsupported('zip of sequences of different lengths')
+                return [tuple(t) for t in zip(*seqs)]
         if q == 'builtins.reversed':
             return list(reversed(list(args[0])))
         if q == 'builtins.isinstance':
